@@ -94,6 +94,9 @@ func runC14(rep *TReport, raw json.RawMessage) {
 		if r.Tbl == "B" {
 			s.Claims.RequestedAt = now.Add(-4 * Tick)
 			s.Claims.AuthTime = s.Claims.RequestedAt.Add(time.Duration(r.Offset) * Tick)
+			if r.Offset == 99 { // the session does not know when the user authenticated
+				s.Claims.AuthTime = time.Time{}
+			}
 		}
 		if r.Tbl == "A" && r.Key != "rsa" && r.Key != "ec256" && r.Key != "jwk_es384_nohdr" {
 			s.Headers.Extra = map[string]interface{}{"alg": r.Alg} // the application names the algorithm of its key
@@ -242,14 +245,23 @@ func runC14(rep *TReport, raw json.RawMessage) {
 func (w *World) idTokenHint(kind string) string {
 	sub := Subject
 	exp := time.Now().Add(Tick)
+	var key interface{} = w.SignKey
 	switch kind {
 	case "other":
 		sub = "somebody-else"
 	case "same_expired":
 		exp = time.Now().Add(-2 * Tick)
+	case "garbage":
+		return "not.an.id-token"
+	case "foreign_key":
+		key = unregisteredKey()
 	}
-	signer := &jwt.DefaultSigner{GetPrivateKey: func(_ context.Context) (interface{}, error) { return w.SignKey, nil }}
-	t, _, err := signer.Generate(w.ctx(0), jwt.MapClaims{"sub": sub, "iss": Issuer, "aud": []string{"A"}, "exp": exp.Unix(), "iat": time.Now().Add(-3 * Tick).Unix()}, jwt.NewHeaders())
+	claims := jwt.MapClaims{"sub": sub, "iss": Issuer, "aud": []string{"A"}, "exp": exp.Unix(), "iat": time.Now().Add(-3 * Tick).Unix()}
+	if kind == "no_sub" {
+		delete(claims, "sub")
+	}
+	signer := &jwt.DefaultSigner{GetPrivateKey: func(_ context.Context) (interface{}, error) { return key, nil }}
+	t, _, err := signer.Generate(w.ctx(0), claims, jwt.NewHeaders())
 	if err != nil {
 		panic(err)
 	}
